@@ -54,7 +54,7 @@ def run_case(job):
         load_emis_config(cfgd)
         fuel = fuel_obj(fuelname)
         pm = model(case['flows'], case['apu'], aclass)
-        traj = synthetic_traj(case['burn'], case['nc'], case['nd'])
+        traj = synthetic_traj(case['burn'], case['nc'], case['nd'], carrier=case.get('carrier', 'container'))
         try:
             em = compute_emissions(pm, fuel, traj)
         except Exception as e:
@@ -126,7 +126,7 @@ def run_session(jobs):
 def run(ctx: Ctx):
     ctx.rule = (
         'flights = every integer fuel-mass profile of 2..4 points with segment burns in {0,1,2,5} kg x every phase split (nc, nd) x both accounting '
-        'modes x 2 LTO flow sets x APU absent/idle/running x GSE on/off (13 728, TLC-enumerated), each run under an option set and aircraft class '
+        'modes x 2 LTO flow sets x APU absent/idle/running x GSE on/off (27 456, TLC-enumerated), each handed over as the Trajectory container or as a plain object with float64 / whole-number integer arrays (one carrier per flight), each run under an option set and aircraft class '
         'chosen by seed (thorough: 5 option sets, 4 classes, 2 fuels round-robin over all); 256 sessions of two inventories under every ordered pair of CO2/H2O/SOx/mode switch settings, each session in a fresh process; non-trivial = zero-burn segment, empty or total window, or lto mode'
     )
     ctx.assumptions += [
@@ -184,7 +184,7 @@ def run(ctx: Ctx):
         c = job[0]
         nt = 0 in c['burn'][1:] or c['mode'] == 'lto' or c['nc'] + c['nd'] in (0, c['n'])
         ctx.case_done({'case': c, 'opt': job[1], 'aclass': job[2]}, nontrivial=nt)
-        ctx.sample({'burn_g': c['burn'], 'nc': c['nc'], 'nd': c['nd'], 'mode': c['mode'], 'apu': c['apu'], 'gse': c['gse'], 'options': OPTION_SETS[job[1]], 'class': job[2]}, limit=3)
+        ctx.sample({'carrier': c.get('carrier'), 'burn_g': c['burn'], 'nc': c['nc'], 'nd': c['nd'], 'mode': c['mode'], 'apu': c['apu'], 'gse': c['gse'], 'options': OPTION_SETS[job[1]], 'class': job[2]}, limit=3)
         seen = set()
         for key, desc in devs:
             if key == 'machinery':
